@@ -31,6 +31,7 @@ use crate::parse::ExprTree;
 use crate::{CompileError, Error, Expr, Result};
 
 #[derive(Debug)]
+#[cfg_attr(fancy_regex_verif, allow(missing_docs))]
 pub struct Info<'a> {
     pub(crate) start_group: usize,
     pub(crate) end_group: usize,
